@@ -167,8 +167,16 @@ def check(ctx, res) -> None:
 
     # (b) do clears redo on every normal exit; every undo append is followed by trimming
     m = hist.methods["do"]
+    def through_alias(fn_node, e):
+        """`lst = self._undo_list` ... `del lst[...]`: a local bound once to the attribute stands for it"""
+        if isinstance(e, ast.Name):
+            defs = [x.value for x in walk_local(fn_node) if isinstance(x, ast.Assign) and any(isinstance(t, ast.Name) and t.id == e.id for t in x.targets)]
+            if len(defs) == 1:
+                return defs[0]
+        return e
+
     trim = [n for n, mm in hist.methods.items()
-            if any(isinstance(x, ast.Delete) and any(canon(getattr(t, "value", None)) == und for t in x.targets)
+            if any(isinstance(x, ast.Delete) and any(canon(through_alias(mm.node, getattr(t, "value", None))) == und for t in x.targets)
                    for x in walk_local(mm.node)) and any(isinstance(x, ast.Compare) for x in walk_local(mm.node))]
     cfg = CFG(common.inline_private_calls(idx, m, keep=trim))
 
@@ -202,15 +210,16 @@ def check(ctx, res) -> None:
         m = hist.methods.get(mname)
         if not m:
             raise AnalysisError(f"anchor=History.{mname} not found")
-        loops = [n for n in walk_local(m.node) if isinstance(n, ast.For)]
+        m_node = common.inline_private_calls(idx, m)  # the loop body may have been moved into a private helper
+        loops = [n for n in walk_local(m_node) if isinstance(n, ast.For)]
         body_muts = []
-        for st in (loops[0].body if loops else m.node.body):
+        for st in (loops[0].body if loops else m_node.body):
             for x in [st, *walk_local(st)]:
                 if isinstance(x, ast.stmt):
                     for e in common.mutated_exprs(x):
                         if canon(e):
                             body_muts.append((canon(e), x))
-        moves = [c for c in calls_in(m.node) if isinstance(c.func, ast.Attribute) and c.func.attr == "append"
+        moves = [c for c in calls_in(m_node) if isinstance(c.func, ast.Attribute) and c.func.attr == "append"
                  and canon(c.func.value) == dst and c.args and isinstance(c.args[0], ast.Call)
                  and isinstance(c.args[0].func, ast.Attribute) and c.args[0].func.attr == "pop"
                  and not c.args[0].args and canon(c.args[0].func.value) == src]
@@ -285,10 +294,7 @@ def check(ctx, res) -> None:
     # ---- R11.10 both history lists are stacks whose top is the BACK (append): whatever is picked as "the last change"
     # is element -1
     n10 = 0
-    for mname in ("undo", "redo", "_perform_undos", "_perform_redos"):
-        m = hist.methods.get(mname)
-        if m is None:
-            continue
+    for mname, m in sorted(hist.methods.items()):  # wherever in the class a single entry is picked by a constant index
         for x in walk_local(m.node):
             if isinstance(x, ast.Subscript) and isinstance(x.ctx, ast.Load) and canon(x.value) and not isinstance(x.slice, ast.Slice):
                 sl = x.slice
